@@ -22,7 +22,7 @@ var ErrInjected = errors.New("simkit: injected I/O failure")
 // io.WriterTo so that io.Copy really issues read/write pairs.
 type Reader struct {
 	Data        []byte
-	Sizes       []int // read plan; entry >= 1: at most that many bytes; 0: an empty read (0, nil)
+	Sizes       []int // read plan; entry >= 1: at most that many bytes; 0: an empty read (0, nil); -N: N empty reads in a row
 	EOFWithData bool  // deliver the final bytes together with io.EOF
 	FailAt      int   // if >0: the FailAt-th read (1-based) returns FailErr instead of data
 	FailErr     error
@@ -40,6 +40,7 @@ type Reader struct {
 	Stuck         bool
 	eofSent       bool
 	lastZero      bool
+	zeroRun       int
 	ZeroReads     int
 	ReadsAfterEOF int
 }
@@ -82,12 +83,19 @@ func (r *Reader) Read(p []byte) (int, error) {
 	n := len(p)
 	if len(r.Sizes) > 0 {
 		k := r.Sizes[(r.Reads-1)%len(r.Sizes)]
-		if k == 0 && !r.lastZero {
-			// an empty read: (0, nil) is legal for an io.Reader ("nothing
-			// happened", not EOF); never twice in a row, so that progress is
-			// guaranteed whatever the plan
-			r.lastZero = true
+		if k <= 0 && !r.lastZero {
+			// empty reads: (0, nil) is legal for an io.Reader ("nothing
+			// happened", not EOF). Entry 0 is one of them, entry -N is N in a
+			// row; then data again, so that progress is guaranteed whatever
+			// the plan
+			r.zeroRun++
 			r.ZeroReads++
+			r.Reads-- // the plan position does not advance during the run
+			if r.zeroRun >= -k {
+				r.zeroRun = 0
+				r.lastZero = true
+				r.Reads++
+			}
 			return 0, nil
 		}
 		if k >= 1 && k < n {
@@ -289,6 +297,14 @@ func AsReader(kind int, r *Reader) io.Reader {
 	case 3:
 		return strings.NewReader(string(r.Data))
 	case 4:
+		// (bufio itself gives up with io.ErrNoProgress after 100 consecutive
+		// empty reads: runs in the plan are cut to 99 behind this wrapper)
+		for i, k := range r.Sizes {
+			if k < -99 {
+				r.Sizes = append([]int{}, r.Sizes...)
+				r.Sizes[i] = -99
+			}
+		}
 		return bufio.NewReaderSize(r, 16)
 	case 5:
 		return &io.LimitedReader{R: r, N: int64(len(r.Data)) + 10}
